@@ -46,6 +46,18 @@ CLAIMED = {
             "columns, non-default index); random larger frames are validated as traces.",
             "columns= passed explicitly (pandas-3 auto-detection is version drift); `remove`d categories modelled as the "
             "code treats them (no column; a row holding one is an unseen value)."),
+    "C07": ("DESIGN 4/C07",
+            "TLA+ specs Quota / QuotaGain (geometry abstracted to arbitrary orders and preferences): TLC model checking "
+            "incl. liveness and negative runs + exact replay of simulated TLC behaviours through a geometric embedding + "
+            "event-level trace validation of every association call (hook H1)",
+            "TLC proves Balanced/NoSkip/Histogram for strategy 'distance' for every processing order and preference "
+            "profile in the bound (plus termination under fairness) and, for 'gain', balanced-unless-exhausted for every "
+            "initial labelling, pair order and exchange decision; simulated Quota behaviours are replayed exactly on the "
+            "real code; every association call of seeded fits/predictions is validated event by event against the "
+            "specification's guards, and fit/predict-level observations (sizes, n_iter_, finite centres, nearest centre) "
+            "against QuotaFitTrace.",
+            "Hook H1 (add-only, guarded by MLINSIGHTS_VERIF) reports decisions after the state change; the open finding "
+            "'swap-exhaustion' of strategy 'gain' is listed in known_findings.json and re-run on its recorded inputs."),
 }
 
 PENDING_REASON = "check not built yet in this round (planned: see DESIGN.md section 4); not claimed until it runs"
@@ -93,7 +105,7 @@ def build():
 
 
 NA = {}
-HOOK_COMMITS = []
+HOOK_COMMITS = ["d780bd4"]
 
 if __name__ == "__main__":
     m = build()
